@@ -29,7 +29,7 @@ func c01DiskPass(r *evid.Report, tier string) {
 	}
 	defer os.RemoveAll(tmp)
 	mcDir := filepath.Join(evid.VerifDir, "mc")
-	os.WriteFile(filepath.Join(tmp, "go.mod"), []byte(fmt.Sprintf(batchGoMod, mcDir, filepath.Join(mcDir, "stubs", "pq"))), 0o644)
+	os.WriteFile(filepath.Join(tmp, "go.mod"), []byte(fmt.Sprintf(batchGoMod, mcDir, filepath.Join(mcDir, "stubs", "pq"), evid.RepoDir)), 0o644)
 	if sum, err := os.ReadFile(filepath.Join(mcDir, "go.sum")); err == nil {
 		os.WriteFile(filepath.Join(tmp, "go.sum"), sum, 0o644)
 	}
@@ -183,7 +183,7 @@ func c01Isolated(family string, vec []int) (bool, string) {
 	}
 	defer os.RemoveAll(tmp)
 	mcDir := filepath.Join(evid.VerifDir, "mc")
-	os.WriteFile(filepath.Join(tmp, "go.mod"), []byte(fmt.Sprintf(batchGoMod, mcDir, filepath.Join(mcDir, "stubs", "pq"))), 0o644)
+	os.WriteFile(filepath.Join(tmp, "go.mod"), []byte(fmt.Sprintf(batchGoMod, mcDir, filepath.Join(mcDir, "stubs", "pq"), evid.RepoDir)), 0o644)
 	if sum, err := os.ReadFile(filepath.Join(mcDir, "go.sum")); err == nil {
 		os.WriteFile(filepath.Join(tmp, "go.sum"), sum, 0o644)
 	}
